@@ -28,13 +28,14 @@ def main():
     a = sys.argv[1:]
     pid = a[0]
     src = "/var/tmp/seed/out/" + pid
-    also, tier, tags = [], "quick", ""
+    also, tier, tags, race = [], "quick", "", False
     i = 1
     while i < len(a):
         if a[i] == "--src": src = a[i + 1]
         elif a[i] == "--also": also = a[i + 1].split(",")
         elif a[i] == "--tier": tier = a[i + 1]
         elif a[i] == "--tags": tags = a[i + 1]
+        elif a[i] == "--race": race = a[i + 1] == "1"
         i += 2
     wt = "/var/tmp/seedeval-" + pid
     subprocess.run(["git", "-C", "/repo", "worktree", "remove", "--force", wt], stdout=subprocess.DEVNULL, stderr=subprocess.DEVNULL)
@@ -83,7 +84,7 @@ def main():
             shutil.copy(os.path.join(src, d), dst)
             tests = re.findall(r"(?m)^func (Test\w+)\(", txt)
             runre = "^(" + "|".join(tests) + ")$" if tests else "."
-            cmd = "go1.26.8 test -count=1 -vet=off %s -run '%s' ./%s" % ("-tags " + dt if dt else "", runre, ddir)
+            cmd = "go1.26.8 test -count=1 -vet=off %s %s -run '%s' ./%s" % ("-race" if race else "", "-tags " + dt if dt else "", runre, ddir)
             rc1, out1 = sh(cmd, wt)
             sh("git apply -R --index " + patch, wt)
             rc2, out2 = sh(cmd, wt)
